@@ -56,15 +56,25 @@ THcNotified  == IsEvent("HcNotified") /\
                   IF hc[Ev.t] = "noted" THEN HcNotify(Ev.t)
                   ELSE hc[Ev.t] \in {"idle", "off", "sent"} /\ Stutter
 THcClose     == IsEvent("HcClose") /\
-                  IF cm.pc = "wait" /\ Ev.t \in Group[cm.k] /\ hcOn[Ev.t] THEN DepWaitTimeout
+                  \* a waiter that gave up closes its own target; once all waiters are back, lb.Dispose closes the rest
+                  IF cm.pc = "wait" /\ Ev.t \in Group[cm.k] /\ hcOn[Ev.t] /\ ~became[Ev.t] THEN WaitTargetTimeout(Ev.t)
+                  ELSE IF cm.pc = "wait" /\ Ev.t \in Group[cm.k] /\ hcOn[Ev.t] THEN DepWaitTimeout
                   ELSE IF cm.pc = "drained" /\ cm.repl # 0 /\ Ev.t \in Group[cm.repl] /\ hcOn[Ev.t] THEN DepDisposeOld
+                  \* remove closes the probe loops and deletes the service in one critical section: the first close is the step
+                  ELSE IF cm.pc = "idle" /\ next <= NCmds /\ Cmds[next] = "remove" /\ Ev.t \in LiveTargets /\ hcOn[Ev.t] THEN CmdRemove(next)
                   ELSE ~hcOn[Ev.t] /\ Stutter
+TRemove      == IsEvent("Remove") /\ cm.k = Ev.k /\ cm.pc = "ret" /\ res[Ev.k] = "ok" /\ Stutter
 
 (* ---- commands ---- *)
 TDepCall    == IsEvent("DepCall") /\ DepCall(Ev.k)
+TRdCall     == IsEvent("RdCall") /\ (IF table = 0 THEN CmdNotFound(Ev.k) ELSE RdCall(Ev.k))
+\* rollout split set (accepted or refused) / stopped: the emit is made under the service's lock
+TRsSet      == IsEvent("RsSet") /\ RsSet(Ev.k) /\ res'[Ev.k] = Ev.res
+TRsStop     == IsEvent("RsStop") /\ RsStop(Ev.k)
 TDepHealthy == IsEvent("DepHealthy") /\ cm.k = Ev.k /\ DepWaitOk
-TUpdateLb   == IsEvent("UpdateLb") /\ cm.k = Ev.k /\ DepUpdateSlot /\ verLb'[Ev.k] = Ev.lb
-TInstall    == IsEvent("Install") /\ cm.k = Ev.k /\ DepInstall /\ table' = Ev.k
+TUpdateLb   == IsEvent("UpdateLb") /\ cm.k = Ev.k /\ DepUpdateSlot
+                 /\ (IF Ev.slot = 0 THEN cm.slot = "active" /\ verLb'[cm.ver] = Ev.lb ELSE cm.slot = "rollout" /\ verRb'[cm.ver] = Ev.lb)
+TInstall    == IsEvent("Install") /\ cm.k = Ev.k /\ DepInstall /\ table' = Ev.ver
 TDepDrained == IsEvent("DepDrained") /\ cm.k = Ev.k /\ cm.pc = "installed" /\ DrainAllDone
 TPc         == IsEvent("Pc") /\
                  CASE Ev.state = "paused"  -> PcPause(Ev.k)
@@ -73,7 +83,8 @@ TPc         == IsEvent("Pc") /\
 TNotFound   == IsEvent("NotFound") /\ CmdNotFound(Ev.k)
 \* what is left of the command before it returns and has no event of its own
 TPreRet     == IsEvent("PreRet") /\
-                 IF cm.pc = "drained" THEN DepDisposeOld            \* first deploy: nothing was replaced
+                 IF cm.pc = "wait" THEN DepWaitTimeout              \* every target's waiter had given up: nothing left to close
+                 ELSE IF cm.pc = "drained" THEN DepDisposeOld       \* first deploy: nothing was replaced
                  ELSE IF cm.pc = "pdrain" THEN DrainAllDone          \* end of Service.Drain
                  ELSE cm.pc = "ret" /\ Stutter
 TRet        == IsEvent("Ret") /\ cm.k = Ev.k /\ res[Ev.k] = Ev.res /\ CmdReturn
@@ -93,12 +104,15 @@ TDrainDeadline == IsEvent("DrainDeadline") /\ (DrainWaitDone(Ev.t) \/ DrainDeadl
 (* ---- requests ---- *)
 TSend       == IsEvent("Send") /\ CliSend(Ev.r, Ev.kind)
 TRouted     == IsEvent("Routed") /\ ReqRoute(Ev.r) /\ (IF Ev.ver = 0 THEN rq'[Ev.r].pc = "done" ELSE rq'[Ev.r].ver = Ev.ver)
-TGate       == IsEvent("Gate") /\ pstate = Ev.state /\ ReqGate(Ev.r)
-TReleased   == IsEvent("Released") /\ rq[Ev.r].pc = "held" /\ (pgen # rq[Ev.r].gen \/ pstate # "paused") /\ Stutter
+TGate       == IsEvent("Gate") /\ PStateFor(Ev.r) = Ev.state /\ ReqGate(Ev.r)
+\* the waiter saw its release channel closed. The close comes before the pause_state emit inside the same critical
+\* section and wakes the waiter at once, so this line may precede the command's own line: no guard here, the step
+\* itself (ReqReleased) is taken at GatePassed / Recv
+TReleased   == IsEvent("Released") /\ rq[Ev.r].pc = "held" /\ Stutter
 TGatePassed == IsEvent("GatePassed") /\
                  IF rq[Ev.r].pc = "held" THEN ReqReleased(Ev.r) /\ rq'[Ev.r].pc = "gated"
                  ELSE rq[Ev.r].pc = "gated" /\ Stutter
-TPreClaim   == IsEvent("PreClaim") /\ ReqPickLb(Ev.r) /\ rq'[Ev.r].lb = Ev.lb
+TPreClaim   == IsEvent("PreClaim") /\ (\E roll \in BOOLEAN : ReqPickLb(Ev.r, roll)) /\ rq'[Ev.r].lb = Ev.lb
 TClaim      == IsEvent("Claim") /\ ReqClaim(Ev.r, Ev.t) /\ rq'[Ev.r].pc = "claimed"
 TClaimRefused == IsEvent("ClaimRefused") /\ ReqClaim(Ev.r, Ev.t) /\ rq'[Ev.r].pc = "done"
 TClaimNone  == IsEvent("ClaimNone") /\ ReqClaimNone(Ev.r)
@@ -116,8 +130,8 @@ TRecv       == IsEvent("Recv") /\
                       /\ Stutter
 
 Consume ==
-  \/ TProbeResult \/ THcApply \/ TRotation \/ THcNotified \/ THcClose
-  \/ TDepCall \/ TDepHealthy \/ TUpdateLb \/ TInstall \/ TDepDrained \/ TPc \/ TNotFound \/ TPreRet \/ TRet
+  \/ TProbeResult \/ THcApply \/ TRotation \/ THcNotified \/ THcClose \/ TRemove
+  \/ TDepCall \/ TRdCall \/ TRsSet \/ TRsStop \/ TDepHealthy \/ TUpdateLb \/ TInstall \/ TDepDrained \/ TPc \/ TNotFound \/ TPreRet \/ TRet
   \/ TDrainStart \/ TTargetState \/ TDrainSnapshot \/ TDrainDeadline
   \/ TSend \/ TRouted \/ TGate \/ TReleased \/ TGatePassed \/ TPreClaim \/ TClaim \/ TClaimRefused \/ TClaimNone
   \/ TBegin \/ TEndInflight \/ TRecv
